@@ -145,6 +145,29 @@ async def s_lifecycle_mix() -> List[str]:
     pr.gate("d").set()
     await ticks()
     await pool.gather_and_close(return_exceptions=True)
+    # several unnamed pools in one loop: closing an older one must not make a later pool re-use a living pool's name
+    from asyncio_taskpool import SimpleTaskPool
+
+    async def idle():
+        await asyncio.sleep(3600)
+
+    a, b = TaskPool(), SimpleTaskPool(idle)
+    await a.gather_and_close()
+    c = TaskPool()
+    d = TaskPool()
+    names = [str(x) for x in (b, c, d)]
+    if len(set(names)) != 3:
+        pr.viol.append(f"live unnamed pools share a name: {names}")
+    c.apply(idle)
+    d.apply(idle)
+    b.start(1)
+    await ticks()
+    tnames = [t.get_name() for p_ in (b, c, d) for t in p_._tasks_running.values()]
+    if len(set(tnames)) != 3 or not all(n.endswith("_Task-0") for n in tnames):
+        pr.viol.append(f"tasks of separate pools: {tnames} (expected three distinct names, each pool numbering from 0)")
+    for p_ in (b, c, d):
+        p_.cancel_all()
+    await ticks()
     return pr.viol
 
 
